@@ -65,6 +65,8 @@ def info(prop):
                         "every permutation of the topology set's iteration order times every permutation of the coordinate "
                         "set's iteration order (quick tier: for 3 species and nothing explicit all 5040 topology orders x 3 "
                         "coordinate orders plus 24 coordinate orders x 24 topology orders; thorough: the full product). "
+                        "Families S2E/S2Q/S3Q put coordinate files of EQUAL atom count among the candidates (a distractor .gro as "
+                        "large as a species' end .gro; two species with equally large end .gro files). "
                         "main/auto_map: exhaustive over argv combinations (0..2 explicit species in every order, --auto with "
                         "every listed --exclude choice, --scale absent/given, --outfile absent/absolute/relative, three ways "
                         "of naming the input) on a generated 3-species system."),
@@ -79,7 +81,9 @@ def info(prop):
 # generators of files (independent of the repo's writers)
 
 # species letter -> (molecule name, residue name, atoms in start resolution, atoms in end resolution)
-SPECIES = {"A": ("MA", "RA", 1, 3), "B": ("MB", "RB", 2, 4), "C": ("MC", "RC", 3, 5)}
+# D has as many end-resolution atoms as B (but other residue and atom names): two species' end .gro files of equal size
+SPECIES = {"A": ("MA", "RA", 1, 3), "B": ("MB", "RB", 2, 4), "C": ("MC", "RC", 3, 5), "D": ("MD", "RD", 2, 4)}
+END_ATOM_PREFIX = {"D": "N"}                    # default "C"
 START_ONLY = {"W": ("MW", "RW", 1, 0)}          # species with nothing but a start topology (incomplete family)
 ALLSP = dict(SPECIES, **START_ONLY)
 SHIPPED = {"BMIM": ("BMIM_CG.itp", "BMIM_AA.gro", "BMIM_AA.itp"), "BF4": ("BF4_CG.itp", "BF4_AA.gro", "BF4_AA.itp")}
@@ -123,6 +127,11 @@ LAYOUTS = {
     # extra family: a species of the system (W, think of the solvent one wants to --exclude) whose start topology is among
     # the candidates but which has no end files; the complete species A and B must still get exactly their triples
     "S2W": {"species": "AB", "seq": "ABWBW", "distractors": ["txt"], "ref_listed": False, "start_only": "W"},
+    # equal atom counts among the candidate coordinate files (a discovery that indexes coordinate files by size must not
+    # lose a species): "same:X" is a distractor .gro with as many atoms as X's end .gro but other residue/atom names
+    "S2E": {"species": "AB", "seq": "ABBAB", "distractors": ["txt", "same:A", "same:B"], "ref_listed": False},
+    "S2Q": {"species": "BD", "seq": "BDDB", "distractors": ["txt", "gro"], "ref_listed": False},
+    "S3Q": {"species": "ABD", "seq": "ABDDBA", "distractors": ["same:A"], "ref_listed": False},
 }
 
 
@@ -137,8 +146,9 @@ def layout_files(layout):
     for s in layout["species"]:
         mn, rn, ncg, naa = SPECIES[s]
         files[fname(s, "top_CG")] = itp_text(mn, rn, ["B%d" % (j + 1) for j in range(ncg)])
-        files[fname(s, "top_AA")] = itp_text(mn, rn, ["C%d" % (j + 1) for j in range(naa)])
-        files[fname(s, "coor_AA")] = gro_text(f"{s} end", [(1, rn, list(zip(["C%d" % (j + 1) for j in range(naa)], end_positions(s))))])
+        pre = END_ATOM_PREFIX.get(s, "C")
+        files[fname(s, "top_AA")] = itp_text(mn, rn, [f"{pre}{j + 1}" for j in range(naa)])
+        files[fname(s, "coor_AA")] = gro_text(f"{s} end", [(1, rn, list(zip([f"{pre}{j + 1}" for j in range(naa)], end_positions(s))))])
     for s in layout.get("start_only", ""):
         mn, rn, ncg, _ = START_ONLY[s]
         files[fname(s, "top_CG")] = itp_text(mn, rn, ["B%d" % (j + 1) for j in range(ncg)])
@@ -146,6 +156,10 @@ def layout_files(layout):
         files["notes.txt"] = "not a molecule file\n"
     if "itp" in layout["distractors"]:
         files["X_other.itp"] = itp_text("MX", "RX", ["Q1", "Q2"])
+    for d in layout["distractors"]:
+        if d.startswith("same:"):
+            n = SPECIES[d[5:]][3]
+            files[f"same_as_{d[5:]}.gro"] = gro_text(f"{n} atoms, no species", [(1, "RQ", [(f"Q{j + 1}", (0.11 * j, 0.05, 0.02 * j)) for j in range(n)])])
     if "gro" in layout["distractors"]:
         files["stray.gro"] = gro_text("stray", [(1, "RZ", [("Z1", (0.0, 0.0, 0.0)), ("Z2", (0.1, 0.0, 0.0))])])
     return files
@@ -607,7 +621,9 @@ def run_hashseed(case, folder, hashseed):
     with cwd(folder):
         if "exception" in o:
             return {"no_exception": o["exception"]}, o["exception"]
-        return sort_post(o["result"], None, expected, explicit_names, incomplete), canon(o["result"])
+        here = os.getcwd()
+        return (_strip(sort_post(o["result"], None, expected, explicit_names, incomplete), here),
+                _strip(canon(o["result"]), here))
 
 
 def task_sort_hashseed(layout, seeds, tag):
@@ -1203,7 +1219,7 @@ def tasks(prop, tier, seed):
           ("sort_molecules/guards", task_sort_guards, (seed,), 120.0),
           ("main/guards", task_main_guards, (seed,), 120.0)]
     # generated directories, every explicit subset, all iteration-order pairs
-    for layout in ("S1", "S2", "S3", "S2W"):
+    for layout in ("S1", "S2", "S3", "S2W", "S2E", "S2Q", "S3Q"):
         # S2W (a system species with nothing but a start topology among the candidates) is an extra family: nothing explicit
         for explicit in (all_subsets(LAYOUTS[layout]["species"]) if layout != "S2W" else [()]):
             case = {"layout": layout, "explicit": list(explicit)}
@@ -1235,6 +1251,13 @@ def tasks(prop, tier, seed):
     # native twins
     ts.append(("sort_molecules/native-sets/S1S2", task_sort_native, (["S1", "S2"], 1500 if thorough else 60, seed, "native-sets.S1S2.list-orderings"), 900.0))
     ts.append(("sort_molecules/native-sets/S3", task_sort_native, (["S3"], 1500 if thorough else 40, seed, "native-sets.S3.list-orderings"), 900.0))
+    ts.append(("sort_molecules/native-sets/S2E.S2Q", task_sort_native, (["S2E", "S2Q"], 1500 if thorough else 60, seed, "native-sets.S2E.S2Q.list-orderings"), 900.0))
+    ts.append(("sort_molecules/native-sets/S3Q", task_sort_native, (["S3Q"], 1500 if thorough else 40, seed, "native-sets.S3Q.list-orderings"), 900.0))
+    hq = list(range(1, 33)) if thorough else list(range(1, 5))
+    for lay in ("S2E", "S2Q", "S3Q"):
+        for i in range(0, len(hq), 8):
+            part = hq[i:i + 8]
+            ts.append((f"sort_molecules/hashseed/{lay}/{i // 8}", task_sort_hashseed, (lay, part, f"hashseed.{lay}[{part[0]}..{part[-1]}]"), 900.0))
     hs = list(range(1, 65)) if thorough else list(range(1, 7))
     nh = 4 if thorough else 2
     per = len(hs) // nh
